@@ -77,6 +77,53 @@ func init() {
 	newErr := func(st *State, fr *Frame, call ssa.CallInstruction, a []SVal) (SVal, bool) {
 		return st.newErr("err"), true
 	}
+	reg("errors.As", []string{"B:*"}, func(st *State, fr *Frame, call ssa.CallInstruction, a []SVal) (SVal, bool) {
+		// errors.As(err, &target): when it reports true, *target has been set to a non-nil value
+		okv := st.fresh("errors.as", SBool)
+		iv, isI := a[1].(*IfaceV)
+		if !isI || iv.Conc == nil {
+			return okv, true
+		}
+		pt, isP := iv.Conc.Underlying().(*types.Pointer)
+		if !isP {
+			return okv, true
+		}
+		cell := st.ptrAddr(iv.CVal, pt.Elem())
+		cur := st.load(st.heap, cell)
+		nv := st.freshVal("as.target", pt.Elem())
+		if t, ok := nv.(*Term); ok && t.Sort == SInt {
+			st.assume(Implies(okv, Neq(t, IntLit(0))))
+		}
+		st.store(cell, st.iteVal(okv, nv, cur, pt.Elem()))
+		st.assume(Implies(okv, Neq(st.scalar(a[0]), IntLit(0))))
+		return okv, true
+	})
+	reg("errors.Is", nil, func(st *State, fr *Frame, call ssa.CallInstruction, a []SVal) (SVal, bool) {
+		e, target := st.scalar(a[0]), st.scalar(a[1])
+		r := st.fresh("errors.is", SBool)
+		// identical errors match; a nil error matches nothing (wrapping is not modelled further)
+		st.assume(Implies(Eq(e, target), Or(r, Eq(e, IntLit(0)))))
+		st.assume(Implies(And(Eq(e, IntLit(0)), Neq(target, IntLit(0))), Not(r)))
+		return r, true
+	})
+	reg("google.golang.org/protobuf/proto.Clone", nil, func(st *State, fr *Frame, call ssa.CallInstruction, a []SVal) (SVal, bool) {
+		// a deep copy: a fresh, non-nil message of the same dynamic type (contents not modelled)
+		iv, ok := a[0].(*IfaceV)
+		if !ok {
+			return nil, false
+		}
+		r := st.allocRef()
+		return &IfaceV{Tag: iv.Tag, Val: r, Conc: iv.Conc, CVal: r}, true
+	})
+	reg("google.golang.org/protobuf/types/known/durationpb.New", nil, func(st *State, fr *Frame, call ssa.CallInstruction, a []SVal) (SVal, bool) {
+		r := st.allocRef()
+		st.assume(Eq(st.durOf(r), st.scalar(a[0])))
+		return r, true
+	})
+	reg("(*google.golang.org/protobuf/types/known/durationpb.Duration).AsDuration", nil, func(st *State, fr *Frame, call ssa.CallInstruction, a []SVal) (SVal, bool) {
+		p := st.scalar(a[0])
+		return Ite(Eq(p, IntLit(0)), IntLit(0), st.durOf(p)), true
+	})
 	reg("errors.New", nil, newErr)
 	reg("fmt.Errorf", nil, newErr)
 	reg("google.golang.org/grpc/status.Error", nil, func(st *State, fr *Frame, call ssa.CallInstruction, a []SVal) (SVal, bool) {
@@ -148,6 +195,12 @@ func (st *State) powReal(x, y *Term) *Term {
 	r := App(SReal, f, x, y)
 	st.assume(Implies(Gt(x, RealLit(0)), Gt(r, RealLit(0))))
 	return r
+}
+
+// durOf: the time.Duration a *durationpb.Duration message denotes (protobuf well-known type; the
+// seconds/nanos encoding is not modelled, New and AsDuration are assumed mutually inverse).
+func (st *State) durOf(p *Term) *Term {
+	return App(SInt, st.declareFun("spec.dur_of", []Sort{SInt}, SInt), p)
 }
 
 func (st *State) truncReal(x *Term) *Term {
@@ -336,6 +389,10 @@ func (st *State) specBuiltin(env *Env, e *Expr) (SVal, types.Type, bool) {
 		}
 		b, _ := st.elab(env, e.Args[1])
 		return Select(pos, st.scalar(b)), tInt, true
+	case "asduration":
+		a, _ := st.elab(env, e.Args[0])
+		p := st.scalar(a)
+		return Ite(Eq(p, IntLit(0)), IntLit(0), st.durOf(p)), tInt, true
 	case "parses":
 		a, _ := st.elab(env, e.Args[0])
 		return App(SBool, st.declareFun("spec.parses", []Sort{SStr}, SBool), st.scalar(a)), tBool, true
